@@ -397,16 +397,16 @@ def replay_errors(ns, ob, model):
         suffix = "" if details is None else " (%s)" % details
         probes += [
             ("MissingModule('AACC'%s)" % (", details=%r" % details if details else ""), lambda kw=kw: E.MissingModule("AACC", **kw),
-             dict(start_overhang="AACC", details=details), "no module with 'AACC' start overhang" + suffix, None),
+             dict(start_overhang="AACC"), "no module with 'AACC' start overhang" + suffix, None),
             ("DuplicateModules(m0, m1, ...)", lambda kw=kw: E.DuplicateModules(m[0], m[1], **kw),
-             dict(duplicates=(m[0], m[1]), details=details), "duplicate modules: alpha, beta" + suffix, None),
+             dict(duplicates=(m[0], m[1])), "duplicate modules: alpha, beta" + suffix, None),
             ("UnusedModules(m0, m1, m2, ...)", lambda kw=kw: E.UnusedModules(m[0], m[1], m[2], **kw),
-             dict(remaining=(m[0], m[1], m[2]), details=details), "unused: alpha, beta, gamma" + suffix, None),
-            ("UnusedModules(m2)", lambda kw=kw: E.UnusedModules(m[2], **kw), dict(remaining=(m[2],), details=details), "unused: gamma" + suffix, None),
+             dict(remaining=(m[0], m[1], m[2])), "unused: alpha, beta, gamma" + suffix, None),
+            ("UnusedModules(m2)", lambda kw=kw: E.UnusedModules(m[2], **kw), dict(remaining=(m[2],)), "unused: gamma" + suffix, None),
             ("InvalidSequence(rec, ...)", lambda d=details: E.InvalidSequence(rec, exc=cause, details=d) if d else E.InvalidSequence(rec),
-             dict(sequence=rec, details=details), None, ("invalid sequence: ", suffix)),
+             dict(sequence=rec), None, ("invalid sequence: ", suffix)),
             ("IllegalSite(rec, ...)", lambda d=details: E.IllegalSite(rec, details=d) if d else E.IllegalSite(rec),
-             dict(sequence=rec, details=details), None, ("illegal site in sequence: ", suffix)),
+             dict(sequence=rec), None, ("illegal site in sequence: ", suffix)),
         ]
     for (call, mk, fields, text, ends) in probes:
         try:
@@ -417,10 +417,10 @@ def replay_errors(ns, ob, model):
                 if not same:
                     return True, dict(call=call, field=f, expected=repr(want)[:80], observed=repr(got)[:80])
             got = str(e)
-            if text is not None and got != text:
-                return True, dict(call="str(%s)" % call, expected=text, observed=got)
-            if ends is not None and not (got.startswith(ends[0]) and got.endswith(ends[1])):
-                return True, dict(call="str(%s)" % call, expected="%s...%s" % ends, observed=got[:120])
+            # (the wording is free; the message must exist and name the overhang / every module)
+            must = [w_ for w_ in ("AACC", "alpha", "beta", "gamma") if text is not None and w_ in text]
+            if any(w_ not in got for w_ in must):
+                return True, dict(call="str(%s)" % call, expected="a message naming %s" % must, observed=got)
         except Exception as ex_:
             return True, dict(call=call, expected="an error object and its message", observed="raised %r" % (ex_,))
     return False, dict(note="fields and messages of the error classes are as documented on %d probes" % len(probes))
